@@ -39,6 +39,7 @@ typedef struct {
     size_t n;
     int omit_all;        /* omitAllFromKeysUnlessPresent */
     int is_null;         /* pass a NULL list pointer (sign only) */
+    const void* native;  /* non-NULL: a list in the library's own format in caller memory (jv_wk_native_list_build); passed to the library as it is, no copy */
 } jv_attrs;
 
 enum {
@@ -231,6 +232,8 @@ enum {
   X(int, jv_wk_verify_precomputed, (int view, const void* params, const void* pre, const void* sig, const uint8_t* m32)) \
   X(void, jv_wk_marshal, (int view, int ok, void* buf, const void* obj, int compressed)) \
   X(int, jv_wk_unmarshal, (int view, int ok, void* obj, const void* buf, int compressed, int checked)) \
+  X(size_t, jv_wk_native_list_bytes, (int view, size_t n)) \
+  X(void, jv_wk_native_list_build, (int view, void* mem, const jv_attrs* in)) \
   X(int, jv_wk_set_length, (int view, int ok, void* obj, const void* buf, size_t len, int compressed)) \
   X(size_t, jv_wk_get_marshalled_length, (int view, int ok, const void* obj, int compressed)) \
   X(int, jv_wk_unmarshalled_length, (int view, int ok, const void* buf, size_t len, int compressed)) \
